@@ -20,7 +20,7 @@ ASSUMPTIONS = [
 ]
 BUDGET = {
     'quick': {'enum': ['k1', 'k2', 'listener', 'hooks'], 'hyp': 4000, 'shards': 8},
-    'thorough': {'enum': ['k1', 'k2', 'k3', 'listener', 'hooks'], 'hyp': 160000, 'shards': 16},
+    'thorough': {'enum': ['k1', 'k2', 'k3', 'k4w', 'listener', 'hooks'], 'hyp': 160000, 'shards': 16},
 }
 ALPHABET = [['pause', 'p'], ['play'], ['kill', 'kt'], ['resume', 1]]
 TERMINAL = ('finished', 'excepted', 'killed')
@@ -36,6 +36,10 @@ def enumerate_cases(tier, scope):
         for name in ('async2', 'wait1', 'chain', 'waitwait', 'failing', 'selfkill', 'sync3'):
             for sched in gen.schedules(ALPHABET, k, max_gap):
                 yield {'program': cat[name], 'schedule': sched, 'tag': f'{scope}:{name}'}
+    elif scope == 'k4w':
+        for name in ('wait1', 'waitwait', 'async2'):
+            for sched in gen.schedules(ALPHABET, 4, 1):
+                yield {'program': cat[name], 'schedule': [['tick', 1]] + sched, 'tag': f'k4w:{name}'}
     elif scope == 'hooks':
         for name in ('wait1', 'chain', 'async2', 'selfkill'):
             for hook in gen.HOOK_SITES:
